@@ -51,6 +51,8 @@ type advTx struct {
 	M []advMut `json:"m,omitempty"` // mutations (empty = the valid template)
 	W bool     `json:"w,omitempty"` // signed by somebody else than the message names
 	B bool     `json:"b,omitempty"` // burst: one tx per eligible member / validator (DKG rounds, signatures, reports, prices)
+
+	maint bool // (not part of the case) inserted by a block's Maint flag
 }
 
 func (t advTx) sel(i int) int {
@@ -61,8 +63,9 @@ func (t advTx) sel(i int) int {
 }
 
 type advBlock struct {
-	Dt  int     `json:"dt"`
-	Txs []advTx `json:"txs,omitempty"`
+	Dt    int     `json:"dt"`
+	Maint bool    `json:"maint,omitempty"` // diligent members: before the generated txs every assigned member signs, inactive members re-activate, nonce queues are topped up
+	Txs   []advTx `json:"txs,omitempty"`
 }
 
 type advCase struct {
@@ -94,8 +97,9 @@ func genAdv(rt *rapid.T) advCase {
 		c.Cfg = append(c.Cfg, gen.Uniform(rt, "cfg", 60))
 	}
 	nb := rapid.IntRange(10, 40).Draw(rt, "nblocks")
+	diligent := gen.Chance(rt, "diligent", 1, 2)
 	for b := 0; b < nb; b++ {
-		blk := advBlock{Dt: gen.OneOf(rt, "dt", 0, 1, 1, 1, 3, 3, 60, 100000)}
+		blk := advBlock{Dt: gen.OneOf(rt, "dt", 0, 1, 1, 1, 3, 3, 60, 100000), Maint: diligent && gen.Chance(rt, "maint", 1, 2)}
 		ntx := gen.Range(rt, "ntx", 0, 12)
 		for i := 0; i < ntx; i++ {
 			t := advTx{T: gen.Uniform(rt, "type", len(msgTypes)), B: gen.Chance(rt, "burst", 1, 2)}
@@ -130,6 +134,7 @@ type txMeta struct {
 	pid      uint64
 	msg      sdk.Msg
 	fallback bool
+	maint    bool
 }
 
 func reflectParams(m proto.Message) reflect.Value {
@@ -286,7 +291,15 @@ func runAdv(c advCase) *pbt.Verdict {
 			txs = append(txs, bz)
 			metas = append(metas, meta)
 		}
-		for _, t := range blk.Txs {
+		ops := blk.Txs
+		if blk.Maint {
+			var pre []advTx
+			for _, url := range []string{"/band.tss.v1beta1.MsgSubmitSignature", "/band.bandtss.v1beta1.MsgActivate", "/band.tss.v1beta1.MsgSubmitDEs"} {
+				pre = append(pre, advTx{T: typeIndex(url), B: true, S: []int{0, 1, 0}, maint: true})
+			}
+			ops = append(pre, ops...)
+		}
+		for _, t := range ops {
 			if t.T < 0 || t.T >= len(msgTypes) {
 				continue
 			}
@@ -297,8 +310,11 @@ func runAdv(c advCase) *pbt.Verdict {
 				continue
 			}
 			for _, bt := range tmpl {
+				if t.maint && bt.fallback {
+					continue
+				}
 				msg := bt.msg
-				meta := &txMeta{ti: t.T, url: sdk.MsgTypeURL(msg), gov: mt.gov, fallback: bt.fallback}
+				meta := &txMeta{maint: t.maint, ti: t.T, url: sdk.MsgTypeURL(msg), gov: mt.gov, fallback: bt.fallback}
 				for _, mu := range t.M {
 					pm, ok := msg.(proto.Message)
 					if !ok {
@@ -409,6 +425,15 @@ func runAdv(c advCase) *pbt.Verdict {
 			}
 			name := shortName(msgTypes[m.ti].url)
 			ok := tr.Code == 0
+			if m.maint {
+				if ok {
+					okModules[moduleOfURL(m.url)] = true
+					v.Count("maint_ok", 1)
+				} else {
+					v.Count("maint_fail", 1)
+				}
+				continue
+			}
 			switch {
 			case ok && !m.mutated:
 				v.Count("tmpl_ok/"+name, 1)
@@ -543,7 +568,7 @@ func maxIntBits(m any) int {
 
 // inAvoidedRegion: the (mutated) authority-only message would take the chain into the region of a reported finding.
 func (w *world) inAvoidedRegion(m sdk.Msg) bool {
-	if mm, ok := m.(*oracletypes.MsgUpdateParams); ok && avoided(sigSamplingHang) && mm.Params.SamplingTryCount > 1000 {
+	if mm, ok := m.(*oracletypes.MsgUpdateParams); ok && avoided(sigSamplingHang) && mm.Params.SamplingTryCount > 1000 && int64(mm.Params.SamplingTryCount) > 0 {
 		return true
 	}
 	if avoided(sigFeeOverflow) {
